@@ -30,6 +30,7 @@ ASSUME = ["physical constants are the manual's / engine's (F = 96493.5, R = 8.31
           "all database species are monodentate so the convention cancels inside each reaction", "CD-MUSIC with Hfo: only the site balance (the database gives no charge-distribution parameters for Hfo); one case in eight uses a goethite-like CD-MUSIC surface defined in the input and judges the two capacitor laws and the site balance",
           "runs that report an error are inconclusive",
           "with an explicit Donnan layer (-donnan, -only_counter_ions) the Gouy-Chapman relation is judged at 1e-5 relative + 1e-8 C/m2 instead of 1e-8: the layer's composition is iterated separately (measured residual up to 6e-6 relative / 8e-10 C/m2 near the point of zero charge)",
+          "charge laws carry an absolute floor of 1e-11 C/m2 (thorough seed 8: sigma 3e-6 C/m2 next to the point of zero charge, off by 6e-13 C/m2 = 2e-7 relative)",
           "site balances carry an absolute floor of 1e-14 mol next to 1e-8 relative: the solver accepts a balance whose absolute residual is below KNOBS -tolerance (1e-15) whatever the total (model.cpp, residuals())"]
 
 F_C = 96493.5
@@ -265,7 +266,7 @@ def run_kin(ctx, case):
         worst = max(worst, rel)
         nchk += 1
         sigs.add("kinetic-surface|%s|%s" % (model, "grows" if grow else "dissolves"))
-        if abs(want - sig_species) > 1e-7 * max(abs(want), abs(sig_species)) + floor and abs(sig_species) > 1e-12:
+        if abs(want - sig_species) > 1e-7 * max(abs(want), abs(sig_species)) + floor + 1e-11 and abs(sig_species) > 1e-12:
             findings.append(("C20/kinetic-surface/charge-law/%s" % model, "%s step %d: reactant %.10g mol (m0 %.10g), area %.8g m2: sigma from species %.12g C/m2, %s at psi = %.9g V gives %.12g (relative %.2e)" % (
                 case["id"], k + 1, m, m0, area, sig_species, "C psi" if model == "ccm" else "Gouy-Chapman", psi, want, rel)))
     stats = {"n_checks": nchk, "worst_sigma_rel": worst}
@@ -341,7 +342,7 @@ def run_bident(ctx, case):
             rel = abs(law - sig_species) / max(abs(law), abs(sig_species), 1e-30)
             worst = max(worst, rel)
             nchk += 1
-            if abs(law - sig_species) > 1e-7 * max(abs(law), abs(sig_species)) + 1e-9 * qabs * F_C / atot and abs(sig_species) > 1e-12:      # secondary here (measured 2e-8 next to the point of zero charge); the charge laws proper are judged on Hfo
+            if abs(law - sig_species) > 1e-7 * max(abs(law), abs(sig_species)) + 1e-9 * qabs * F_C / atot + 1e-11 and abs(sig_species) > 1e-12:      # secondary here (measured 2e-8 next to the point of zero charge); the charge laws proper are judged on Hfo
                 findings.append(("C20/bidentate/charge-law/%s" % model, "%s: sigma from species %.12g C/m2, %s at psi = %.9g V gives %.12g (relative %.2e)" % (
                     case["id"], sig_species, "C psi" if model == "ccm" else "Gouy-Chapman", psi, law, rel)))
     stats = {"n_checks": nchk, "worst_sigma_rel": worst}
@@ -457,7 +458,7 @@ def run_case(ctx, case):
             worst_sig = max(worst_sig, rel)
             gtol = 1e-8 if model == "ddl" else 1e-5      # with an explicit Donnan layer the charge balance closes over the layer's content, which is iterated to its own tolerance (measured: up to 6e-6 relative, 8e-10 C/m2, near the point of zero charge)
             gabs = 0.0 if model == "ddl" else 1e-8
-            if abs(gc - sig_species) > gtol * max(abs(gc), abs(sig_species)) + gabs + 1e3 * sig_floor and abs(sig_species) > 1e-12:      # the solver fixes the net charge to about 1e-9 of the charged sites
+            if abs(gc - sig_species) > gtol * max(abs(gc), abs(sig_species)) + gabs + 1e3 * sig_floor + 1e-11 and abs(sig_species) > 1e-12:      # the solver fixes the net charge to about 1e-9 of the charged sites
                 findings.append(("C20/gouy-chapman" + ("" if model == "ddl" else "/" + model), "%s: sigma from species %.12g C/m2, Gouy-Chapman at psi = %.9g V, I = %.6g, eps = %.6g, T = %.2f K gives %.12g (relative %.2e)" % (
                     case["id"], sig_species, psi, mu, eps, tk, gc, rel)))
         if model == "ccm":
@@ -465,7 +466,7 @@ def run_case(ctx, case):
             want = info["cap"] * psi
             rel = abs(want - sig_species) / max(abs(want), abs(sig_species), 1e-30)
             worst_sig = max(worst_sig, rel)
-            if abs(want - sig_species) > 1e-8 * max(abs(want), abs(sig_species)) + 1e3 * sig_floor and abs(sig_species) > 1e-12:      # the solver fixes the net charge to about 1e-9 of the charged sites
+            if abs(want - sig_species) > 1e-8 * max(abs(want), abs(sig_species)) + 1e3 * sig_floor + 1e-11 and abs(sig_species) > 1e-12:      # the solver fixes the net charge to about 1e-9 of the charged sites
                 findings.append(("C20/constant-capacitance", "%s: sigma from species %.12g C/m2, C * psi = %.12g (C = %g F/m2, psi = %.9g V)" % (case["id"], sig_species, want, info["cap"], psi)))
     # (4) explicit diffuse layer: surface + layer balance
     if model in ("donnan", "donnan_debye", "diffuse_layer", "counter_only") and len(sn) > 1:
